@@ -41,9 +41,15 @@ def program_strategy(draw, max_calls=25):
         # constructive: the first call renames the drillhole of the drillhole group (who=-2: the extras are appended
         # as group, hole, log), an assignment that is only staged by the group
         calls = [{"call": draw(st.sampled_from(["set_name", "set_flag"])), "who": -2, "to": 0, "seed": [1]}] + calls
+    plain_curve = draw(st.booleans())
+    if plain_curve and not via_open:
+        # constructive: the first call looks at the curve stored without segments (who=-1: appended last)
+        calls = [{"call": draw(st.sampled_from(["snap", "lazy", "copy_other", "monitored_copy"])), "who": -1, "to": 0,
+                  "seed": [1]}] + calls
     return {"build": build, "ops": calls, "drop_root": draw(st.integers(0, 3)) == 0,
             # a drillhole group with one hole and one depth log (concatenated storage) is added to the file
             "with_dh": draw(st.booleans()) or via_open,
+            "with_plain_curve": plain_curve,
             # the read-only session is opened on a Workspace object that was constructed writable and closed
             "ro_via_open": via_open}
 
@@ -98,6 +104,16 @@ class C10(Check):
                 extra_uids = {str(grp.uid): "group", str(hole.uid): "object", str(log.uid): "data"}
                 del grp, hole, log
             res.label("file:with-drillhole-group")
+        if program.get("with_plain_curve"):
+            from geoh5py.objects import Curve
+
+            # a curve stored with its vertices only: its segments were never asked for, so the file holds none
+            with Workspace(path) as wsb:
+                curve = Curve.create(wsb, name="ro_curve", vertices=np.asarray([[0.0, 0.0, 0.0], [1.0, 0.0, 0.0],
+                                                                                  [2.0, 1.0, 0.0], [3.0, 1.0, 1.0]]))
+                extra_uids[str(curve.uid)] = "object"
+                del curve
+            res.label("file:with-curve-without-stored-segments")
         # the user's own Workspace object on that file: built with the default mode, closed again
         # (created while the file is complete, so that closing it writes nothing)
         self.third = Workspace(path)
